@@ -25,7 +25,7 @@ META = {
             "force_number_suffix; thorough: x 2 alternative exponent/multiply strings) x a catalogue of ~75 operations "
             "(construction from every input kind, + - * **, negation, derivative / gradient / hessian, evaluation full / partial "
             "/ polynomial-valued, indexing, the four alignment functions, pickle, copy, joins, reductions, where, decompose, "
-            "set_dimensions, lead_*, comparisons, str; division under the default retain options only) x 9 inputs (9 operand pairs) with cancelling "
+            "set_dimensions, lead_*, comparisons, str; division under the 2**5 settings of the retain, sort and display_graded options) x 9 inputs (8 operand pairs) with cancelling "
             "terms and names that become unused (three names incl. q10). Oracle: the value under the shipped defaults is checked "
             "against the exact model; under every other configuration the operation must not fail and must return the same "
             "value, shape and dtype (ordering-based results may depend on the two sort options only, str on the display options "
@@ -121,9 +121,14 @@ def catalogue():
     add("argmax", lambda x, y: int(numpoly.argmax(x)), "ordering"), add("amin", lambda x, y: numpoly.amin(x), "ordering")
     add("str", lambda x, y: str(x), "text"), add("repr", lambda x, y: repr(x + y), "text")
     # division: default retain options only
-    add("x / 2", lambda x, y: x / 2, "value", True), add("poly_divmod", lambda x, y: numpoly.poly_divmod(x, numpoly.symbols(x.names[0]) + 1)[1], "value", True)
-    add("x % q", lambda x, y: x % (numpoly.symbols(x.names[0]) ** 2), "value", True)
+    add("x / 2", lambda x, y: x / 2, "value", False), add("poly_divmod", lambda x, y: numpoly.poly_divmod(x, numpoly.symbols(x.names[0]) + 1)[1], "value", False)
+    add("poly_divmod by q_first", lambda x, y: list(numpoly.poly_divmod(x, numpoly.symbols(x.names[0]))), "value", False)
+    add("x // q_last", lambda x, y: x / numpoly.symbols(x.names[-1]), "value", False)
+    add("x % q", lambda x, y: x % (numpoly.symbols(x.names[0]) ** 2), "value", False)
     return c
+
+
+DIVISION = {"x / 2", "poly_divmod", "poly_divmod by q_first", "x // q_last", "x % q"}
 
 
 def canon(res):
@@ -153,7 +158,7 @@ def configs(tier):
     return out
 
 
-PAIRS = [(0, 1), (2, 3), (4, 4), (5, 0), (1, 2), (3, 5), (6, 6), (7, 7), (8, 8)]
+PAIRS = [(0, 1), (2, 3), (4, 4), (5, 0), (3, 5), (6, 6), (7, 7), (8, 8)]
 
 
 def cases(tier, seed):
@@ -162,6 +167,7 @@ def cases(tier, seed):
     for (i, j) in PAIRS:
         for c0 in range(0, ncat, 4):
             out.append({"k": "ops", "x": i, "y": j, "c0": c0, "c1": min(ncat, c0 + 4), "tier": tier})
+    out.sort(key=lambda c: -c["c0"])   # the (slow) division operations are at the end of the catalogue: run them first
     return out
 
 
@@ -188,8 +194,8 @@ def run_case(case, R):
             for label, kind, g, retain_default_only in cat:
                 if label not in refs:
                     continue
-                if retain_default_only and (cfg["retain_names"] != defaults["retain_names"] or cfg["retain_coefficients"] != defaults["retain_coefficients"]):
-                    continue
+                if label in DIVISION and any(cfg[k] != defaults[k] for k in ("display_reverse", "display_inverse", "force_number_suffix")):
+                    continue   # division is slow: the 2**5 settings of the retain, sort and display_graded options only
                 R.tr()
                 tags = tags0 + ["kind=" + kind]
                 sub = {"k": "one", "x": case["x"], "y": case["y"], "label": label, "cfg": cfg}
